@@ -183,6 +183,8 @@ func RunReplay(t *testing.T, entries map[string]func()) {
 	for _, v := range c.Values {
 		if v.Kind == "uf" {
 			ufs[v.Label+":"+v.Args] = v.Hex
+		} else if v.Kind == "clock" {
+			// the engine's model of time.Now(): the native run reads the real clock
 		} else {
 			vals = append(vals, v)
 		}
